@@ -25,23 +25,42 @@ Go panics are `none` in every component; here the first one sets `crashed` and t
 the Go cycle does not run either).  `os.Exit` in `fatal` (undefined opcode) stops the machine inside the CPU
 cycle: `cpu.regs.exited`.
 
-Executable-speed notes (the driver is compiled; none of this changes a value, see the `_eq` theorems in
-Proofs/Whole.lean): the decoder arms are tabulated once (`rH`, `wH`); the write handlers of the big arrays are
-restated with the record taken apart first (`writeT`), so that the array is updated in place; `Board` functions
-take the record apart for the same reason.
+Executable-speed notes (the driver is compiled).  Where the plain definition is slow in compiled code a second
+definition is given and tied to it by a proved `@[csimp]` equation (the compiler then uses the second one;
+theorems keep speaking about the first): the decoder arms are tabulated once (`rHfast`, `wHfast`); the write
+handlers of the big arrays are restated with the record taken apart first (`writeT`, `Board.writeFast`), so
+that the array is updated in place; `byteOfFast`, `palByteFast` avoid run-time `2 ^ n` / `<<<` (big-number
+paths of the runtime).  The per-cycle `Board` steps take the record apart for the same reason.
 -/
 namespace Tetro.Model.Whole
 open Tetro.Model Tetro.Model.Decoder Tetro.Model.Machine
 
-/-! ### the decoder, tabulated -/
-
-def readTab : Array H := Array.ofFn (n := 65536) fun i => route Serial.genReadArms i.val
-def writeTab : Array H := Array.ofFn (n := 65536) fun i => route Serial.genWriteArms i.val
+/-! ### the decoder -/
 
 /-- handler of a read of `a` by the regenerated arms of `Mapper.Read` -/
-def rH (a : Nat) : H := readTab.getD a (route Serial.genReadArms a)
+def rH (a : Nat) : H := route Serial.genReadArms a
 /-- handler of a write to `a` by the regenerated arms of `Mapper.Write` -/
-def wH (a : Nat) : H := writeTab.getD a (route Serial.genWriteArms a)
+def wH (a : Nat) : H := route Serial.genWriteArms a
+
+/-! compiled code looks the handler up in a table built once (`@[csimp]`: same function, proved) -/
+def readTab : Array H := Array.ofFn (n := 65536) fun i => route Serial.genReadArms i.val
+def writeTab : Array H := Array.ofFn (n := 65536) fun i => route Serial.genWriteArms i.val
+def rHfast (a : Nat) : H := readTab.getD a (route Serial.genReadArms a)
+def wHfast (a : Nat) : H := writeTab.getD a (route Serial.genWriteArms a)
+
+@[csimp] theorem rH_impl : @rH = @rHfast := by
+  funext a
+  unfold rH rHfast readTab
+  by_cases h : a < 65536
+  · simp [Array.getD, h]
+  · simp [Array.getD, h]
+
+@[csimp] theorem wH_impl : @wH = @wHfast := by
+  funext a
+  unfold wH wHfast writeTab
+  by_cases h : a < 65536
+  · simp [Array.getD, h]
+  · simp [Array.getD, h]
 
 /-! ### the APU behind the decoder -/
 
@@ -88,6 +107,21 @@ def Board.read (b : Board) (a : Nat) : Nat × Board :=
   | some r => r
   | none => (0xff, { b with crashed := true })
 
+/-- `Mapper.Write`; `none` = Go panic -/
+def Board.write? (b : Board) (a v : Nat) : Option Board :=
+  match apuAddr? (wH a) a with
+  | some ad => some { b with apu := b.apu.write ad v }
+  | none => (writeH (wH a) b.m a v).map fun m' => { b with m := m' }
+
+/-- `Mapper.Write`, a panic recorded in `crashed` -/
+def Board.write (b : Board) (a v : Nat) : Board :=
+  match b.write? a v with
+  | some b' => b'
+  | none => { b with crashed := true }
+
+/-! compiled code of `Board.write` (`@[csimp]`: same function, proved): the records are taken apart before a
+    large array is touched, so that the array is updated in place -/
+
 /-- outcome of a write handler that returns the machine in either case (so the caller never needs the
     old record again): `.ok` the machine after the write, `.error` = Go panic -/
 abbrev WriteT := Except Machine Machine
@@ -124,14 +158,7 @@ def writeT (h : H) (m : Machine) (a v : Nat) : WriteT :=
     | some m' => .ok m'
     | none => .error m
 
-/-- `Mapper.Write`; `none` = Go panic -/
-def Board.write? (b : Board) (a v : Nat) : Option Board :=
-  match apuAddr? (wH a) a with
-  | some ad => some { b with apu := b.apu.write ad v }
-  | none => (writeH (wH a) b.m a v).map fun m' => { b with m := m' }
-
-/-- `Mapper.Write`, a panic recorded in `crashed` (same value as `write?`, see `write_eq`) -/
-def Board.write (b : Board) (a v : Nat) : Board :=
+def Board.writeFast (b : Board) (a v : Nat) : Board :=
   match b with
   | { m, apu, pix, crashed } =>
     match apuAddr? (wH a) a with
@@ -140,6 +167,81 @@ def Board.write (b : Board) (a v : Nat) : Board :=
       match writeT (wH a) m a v with
       | .ok m' => { m := m', apu, pix, crashed }
       | .error m' => { m := m', apu, pix, crashed := true }
+
+private theorem stv_pos {n : Nat} (vec : Vector Nat n) (i v : Nat) (h : i < n) :
+    stv vec i v = some (vec.set i v h) := by simp only [stv, dif_pos h]
+private theorem stv_neg {n : Nat} (vec : Vector Nat n) (i v : Nat) (h : ¬ i < n) : stv vec i v = none := by
+  simp only [stv, dif_neg h]
+
+private theorem wT_wram (m : Machine) (a v : Nat) :
+    writeT .wram m a v = match writeH .wram m a v with | some m' => .ok m' | none => .error m := by
+  by_cases hi : Oam.sub16 a 0xc000 < 0x2000
+  · have A : writeT .wram m a v = .ok { m with wram := m.wram.set (Oam.sub16 a 0xc000) v hi } := by
+      cases m; simp only [writeT, dif_pos hi]
+    have C : writeH .wram m a v = some { m with wram := m.wram.set (Oam.sub16 a 0xc000) v hi } := by
+      simp only [writeH]; rw [stv_pos _ _ _ hi]; rfl
+    rw [A, C]
+  · have B : writeT .wram m a v = .error m := by cases m; simp only [writeT, dif_neg hi]
+    have D : writeH .wram m a v = none := by simp only [writeH]; rw [stv_neg _ _ _ hi]; rfl
+    rw [B, D]
+
+private theorem wT_echo (m : Machine) (a v : Nat) :
+    writeT .echo m a v = match writeH .echo m a v with | some m' => .ok m' | none => .error m := by
+  by_cases hi : Oam.sub16 a 0xe000 < 0x2000
+  · have A : writeT .echo m a v = .ok { m with wram := m.wram.set (Oam.sub16 a 0xe000) v hi } := by
+      cases m; simp only [writeT, dif_pos hi]
+    have C : writeH .echo m a v = some { m with wram := m.wram.set (Oam.sub16 a 0xe000) v hi } := by
+      simp only [writeH]; rw [stv_pos _ _ _ hi]; rfl
+    rw [A, C]
+  · have B : writeT .echo m a v = .error m := by cases m; simp only [writeT, dif_neg hi]
+    have D : writeH .echo m a v = none := by simp only [writeH]; rw [stv_neg _ _ _ hi]; rfl
+    rw [B, D]
+
+private theorem wT_vram (m : Machine) (a v : Nat) :
+    writeT .vram m a v = match writeH .vram m a v with | some m' => .ok m' | none => .error m := by
+  by_cases hi : Oam.sub16 a 0x8000 < 0x2000
+  · have A : writeT .vram m a v = .ok { m with vram := m.vram.set (Oam.sub16 a 0x8000) v hi } := by
+      cases m; simp only [writeT, dif_pos hi]
+    have C : writeH .vram m a v = some { m with vram := m.vram.set (Oam.sub16 a 0x8000) v hi } := by
+      simp only [writeH]; rw [stv_pos _ _ _ hi]; rfl
+    rw [A, C]
+  · have B : writeT .vram m a v = .error m := by cases m; simp only [writeT, dif_neg hi]
+    have D : writeH .vram m a v = none := by simp only [writeH]; rw [stv_neg _ _ _ hi]; rfl
+    rw [B, D]
+
+private theorem wT_hram (m : Machine) (a v : Nat) :
+    writeT .hram m a v = match writeH .hram m a v with | some m' => .ok m' | none => .error m := by
+  by_cases hi : Oam.sub16 a 0xff80 < 0x8f
+  · have A : writeT .hram m a v = .ok { m with hram := m.hram.set (Oam.sub16 a 0xff80) v hi } := by
+      cases m; simp only [writeT, dif_pos hi]
+    have C : writeH .hram m a v = some { m with hram := m.hram.set (Oam.sub16 a 0xff80) v hi } := by
+      simp only [writeH]; rw [stv_pos _ _ _ hi]; rfl
+    rw [A, C]
+  · have B : writeT .hram m a v = .error m := by cases m; simp only [writeT, dif_neg hi]
+    have D : writeH .hram m a v = none := by simp only [writeH]; rw [stv_neg _ _ _ hi]; rfl
+    rw [B, D]
+
+/-- `writeT` is `Machine.writeH` (the machine is handed back unchanged on a panic) -/
+theorem writeT_eq (h : H) (m : Machine) (a v : Nat) :
+    writeT h m a v = match writeH h m a v with
+      | some m' => .ok m'
+      | none => .error m := by
+  cases h
+  case wram => exact wT_wram m a v
+  case echo => exact wT_echo m a v
+  case vram => exact wT_vram m a v
+  case hram => exact wT_hram m a v
+  all_goals rfl
+
+@[csimp] theorem Board.write_impl : @Board.write = @Board.writeFast := by
+  funext b a v
+  unfold Board.write Board.writeFast Board.write?
+  generalize wH a = h
+  cases hA : apuAddr? h a with
+  | some ad => rfl
+  | none =>
+    simp only [writeT_eq]
+    cases writeH h b.m a v <;> rfl
 
 /-! #### what the CPU sees -/
 
@@ -156,8 +258,12 @@ def Board.corrupt (b : Board) : Board :=
     | some o => b.setOam o
     | none => { b with crashed := true }
 
-/-- `BitVec.ofNat 8 n` without the run-time `2 ^ 8` (see `byteOf_eq`) -/
-def byteOf (n : Nat) : BitVec 8 := BitVec.ofNatLT (n % 256) (Nat.mod_lt _ (by decide))
+/-- a bus value as the CPU's byte -/
+def byteOf (n : Nat) : BitVec 8 := BitVec.ofNat 8 n
+/-- compiled code of `byteOf`: without the run-time `2 ^ 8` -/
+def byteOfFast (n : Nat) : BitVec 8 := BitVec.ofNatLT (n % 256) (Nat.mod_lt _ (by decide))
+@[csimp] theorem byteOf_impl : @byteOf = @byteOfFast := by
+  funext n; apply BitVec.eq_of_toNat_eq; simp [byteOf, byteOfFast]
 
 instance : Cpu.Bus Board where
   read b a := let r := b.read a.toNat; (byteOf r.1, r.2)
@@ -174,9 +280,16 @@ instance : Cpu.Bus Board where
 
 def toByte (n : Nat) : Render.Byte := ⟨n % 256, Nat.mod_lt _ (by decide)⟩
 
-/-- `Machine.palRead` / `Machine.objPalRead` with multiplications for the shifts (see `palByte_eq`) -/
-def palByte (p : Pal) : Nat := (p.c3 * 64 % 256 + p.c2 * 16 % 256 + p.c1 * 4 % 256 + p.c0) % 256
-def objPalByte (p : Pal) : Nat := (p.c3 * 64 % 256 + p.c2 * 16 % 256 + p.c1 * 4 % 256) % 256
+/-- `ReadBGP`, `ReadOBP0/1` -/
+def palByte (p : Pal) : Nat := palRead p
+def objPalByte (p : Pal) : Nat := objPalRead p
+/-- compiled code: multiplications for the shifts (a run-time `<<<` goes through big-number arithmetic) -/
+def palByteFast (p : Pal) : Nat := (p.c3 * 64 % 256 + p.c2 * 16 % 256 + p.c1 * 4 % 256 + p.c0) % 256
+def objPalByteFast (p : Pal) : Nat := (p.c3 * 64 % 256 + p.c2 * 16 % 256 + p.c1 * 4 % 256) % 256
+@[csimp] theorem palByte_impl : @palByte = @palByteFast := by
+  funext p; unfold palByte palByteFast palRead; simp only [Nat.shiftLeft_eq]
+@[csimp] theorem objPalByte_impl : @objPalByte = @objPalByteFast := by
+  funext p; unfold objPalByte objPalByteFast objPalRead; simp only [Nat.shiftLeft_eq]
 
 /-- what the pixel pipeline reads in this cycle: the video registers as they read back, VRAM, and OAM
     through `oam.PPURead` (0xff while a DMA transfer runs) -/
